@@ -2,7 +2,9 @@ package main
 
 import (
 	"fmt"
+	"go/token"
 	"go/types"
+	"os"
 	"sort"
 	"strings"
 
@@ -117,6 +119,53 @@ func (lc *lockCtx) valueOnlyCalled(p ssa.Value) bool {
 			if !lc.closureSync(x) {
 				return false
 			}
+		case *ssa.Store:
+			// a parameter captured by reference: spilled into a cell that closures bind; every read of the cell must
+			// itself be only invoked, nothing else is ever stored into it, and the closures run synchronously
+			a, isAlloc := x.Addr.(*ssa.Alloc)
+			if !isAlloc || x.Val != p || !lc.cellOnlyCalled(a, x, 0) {
+				return false
+			}
+		default:
+			if os.Getenv("OTTERLINT_TRACE") != "" {
+				fmt.Fprintf(os.Stderr, "valueOnlyCalled: %s used by %T %v in %s\n", p.Name(), u, u, u.Parent())
+			}
+			return false
+		}
+	}
+	return true
+}
+
+// cellOnlyCalled: the cell (an Alloc or a by-reference free variable) is written only by `init`, and every value read
+// from it is only invoked; closures that capture the cell are synchronous.
+func (lc *lockCtx) cellOnlyCalled(cell ssa.Value, init *ssa.Store, depth int) bool {
+	if depth > 3 {
+		return false
+	}
+	for _, u := range usesOf(cell) {
+		switch x := u.(type) {
+		case *ssa.Store:
+			if x != init || x.Addr != cell {
+				return false
+			}
+		case *ssa.UnOp:
+			if x.Op != token.MUL || !lc.valueOnlyCalled(x) {
+				return false
+			}
+		case *ssa.MakeClosure:
+			f, _ := x.Fn.(*ssa.Function)
+			if f == nil {
+				return false
+			}
+			for bi, b := range x.Bindings {
+				if b == cell && !lc.cellOnlyCalled(f.FreeVars[bi], nil, depth+1) {
+					return false
+				}
+			}
+			if !lc.closureSync(x) {
+				return false
+			}
+		case *ssa.DebugRef:
 		default:
 			return false
 		}
